@@ -5,6 +5,7 @@ import (
 	"go/constant"
 	"go/token"
 	"go/types"
+	"sort"
 	"strings"
 
 	"golang.org/x/tools/go/ssa"
@@ -391,6 +392,55 @@ var overwriteCmds = []string{"set", "mset", "setex", "psetex", "getset", "rename
 // condKeyword: does the branch condition depend on a flag that is set under a comparison with the given option keyword?
 func condKeyword(cond ssa.Value, kw string) bool {
 	found := false
+	// a flag variable whose address sits in a lookup table under the keyword (opts := map[string]..{"keepttl": {&keepttl, ..}})
+	if u, ok := cond.(*ssa.UnOp); ok && u.Op == token.MUL {
+		if cell, ok := u.X.(*ssa.Alloc); ok && cell.Referrers() != nil {
+			for _, r := range *cell.Referrers() {
+				st, ok := r.(*ssa.Store)
+				if !ok || st.Val != ssa.Value(cell) {
+					continue
+				}
+				var holder ssa.Value = st.Addr
+				for i := 0; i < 3; i++ {
+					if fa, ok := holder.(*ssa.FieldAddr); ok {
+						holder = fa.X
+					} else if ia, ok := holder.(*ssa.IndexAddr); ok {
+						holder = ia.X
+					}
+				}
+				tmp, ok := holder.(*ssa.Alloc)
+				if !ok || tmp.Referrers() == nil {
+					continue
+				}
+				for _, r2 := range *tmp.Referrers() {
+					ld, ok := r2.(*ssa.UnOp)
+					if !ok || ld.Referrers() == nil {
+						continue
+					}
+					for _, r3 := range *ld.Referrers() {
+						if mu, ok := r3.(*ssa.MapUpdate); ok && mu.Value == ssa.Value(ld) {
+							if k, ok := constString(mu.Key); ok && strings.EqualFold(k, kw) {
+								return true
+							}
+						}
+					}
+				}
+				// the table maps the keyword to the flag's address directly (map[string]*bool)
+				if mu, ok := r.(*ssa.MapUpdate); ok && mu.Value == ssa.Value(cell) {
+					if k, ok := constString(mu.Key); ok && strings.EqualFold(k, kw) {
+						return true
+					}
+				}
+			}
+			for _, r := range *cell.Referrers() {
+				if mu, ok := r.(*ssa.MapUpdate); ok && mu.Value == ssa.Value(cell) {
+					if k, ok := constString(mu.Key); ok && strings.EqualFold(k, kw) {
+						return true
+					}
+				}
+			}
+		}
+	}
 	// a flag kept in a struct field (options parsed by a helper): some store of true into that field sits under the keyword test
 	fieldOf := func(v ssa.Value) (string, string) {
 		switch x := v.(type) {
@@ -545,6 +595,15 @@ var rR22 = RuleRef{Name: "R22", Doc: "deadline removal is paired: every db.Delet
 				for _, pi := range c.ttlRemoverParams(cf) {
 					if pi < len(ci.Call.Args) {
 						clear(ttlCanon(ci.Call.Args[pi]))
+					}
+				}
+				// a helper that removes the deadline of its key unless its own KEEPTTL test says otherwise: what this
+				// rule accepts at a return (removed, or kept on the flag's true edge) holds behind the call
+				if ow {
+					for _, pi := range c.ttlRemoverUnlessKeepParams(cf) {
+						if pi < len(ci.Call.Args) {
+							clear(ttlCanon(ci.Call.Args[pi]))
+						}
 					}
 				}
 			}
@@ -771,6 +830,99 @@ func (t *ttlAnalysis) checkedAfter(ap *ssa.Call, val ssa.Value) bool {
 
 // ttlRemoverParams: parameters of a memdb helper whose deadline entry is removed (ttlKeys.Delete / DelTTL / SetTTL
 // on that parameter) on every path through the helper.
+// ttlRemoverUnlessKeepParams: like ttlRemoverParams, but a path may also leave the deadline alone when it lies behind the
+// true edge of the KEEPTTL flag (a helper that applies the expiry options of SET after the value was written).
+func (c *C) ttlRemoverUnlessKeepParams(fn *ssa.Function) []int {
+	if fn == nil || fn.Blocks == nil || pkgRel(fn) != "memdb" || fn.Parent() != nil {
+		return nil
+	}
+	if _, isExec := c.Facts.ExecNames[fn]; isExec {
+		return nil
+	}
+	setTTL, delTTL := c.P.Func("memdb", "MemDb.SetTTL"), c.P.Func("memdb", "MemDb.DelTTL")
+	if fn == setTTL || fn == delTTL {
+		return nil
+	}
+	tr := func(in ssa.Instruction, s Set) (Set, bool) {
+		if ci, ok := in.(*ssa.Call); ok {
+			if a := c.keyspaceAccess(ci); a != nil && a.Map == "ttlKeys" && a.Method == "Delete" {
+				s[canon(a.Key)] = true
+			}
+			if cf := callee(ci); cf != nil && (cf == setTTL || cf == delTTL) {
+				s[canon(ci.Call.Args[1])] = true
+			}
+		}
+		return s, false
+	}
+	// the KEEP fact must not be lost at joins of a must-flow: it is tracked per parameter as "removed or kept"
+	edge := func(from, to *ssa.BasicBlock, s Set) Set {
+		cond, neg, ok := branchCond(from, to)
+		if !ok {
+			return s
+		}
+		v, n := cond, neg
+		if u, isNot := v.(*ssa.UnOp); isNot && u.Op == token.NOT {
+			v, n = u.X, !n
+		}
+		if !n && condKeyword(v, "keepttl") {
+			for i := range fn.Params {
+				s[canon(fn.Params[i])] = true
+			}
+		}
+		return s
+	}
+	must := &Flow{Fn: fn, Must: true, Entry: Set{}, Transfer: tr, EdgeGen: edge}
+	must.Run()
+	var cand map[int]bool
+	removesSome := false
+	for _, b := range fn.Blocks {
+		for _, in := range b.Instrs {
+			if ci, ok := in.(*ssa.Call); ok {
+				if cf := callee(ci); cf != nil && (cf == setTTL || cf == delTTL) {
+					removesSome = true
+				}
+			}
+		}
+		if len(b.Instrs) == 0 {
+			continue
+		}
+		ret, ok := b.Instrs[len(b.Instrs)-1].(*ssa.Return)
+		if !ok {
+			continue
+		}
+		st, live := must.Before(ret)
+		if !live {
+			continue
+		}
+		here := map[int]bool{}
+		for f := range st {
+			if pi := paramIndex(fn, f); pi >= 0 {
+				here[pi] = true
+			}
+		}
+		if cand == nil {
+			cand = here
+		} else {
+			for k := range cand {
+				if !here[k] {
+					delete(cand, k)
+				}
+			}
+		}
+	}
+	if !removesSome {
+		return nil
+	}
+	var out []int
+	for k := range cand {
+		if _, isStr := fn.Params[k].Type().Underlying().(*types.Basic); isStr {
+			out = append(out, k)
+		}
+	}
+	sort.Ints(out)
+	return out
+}
+
 func (c *C) ttlRemoverParams(fn *ssa.Function) []int {
 	if fn == nil || fn.Blocks == nil || pkgRel(fn) != "memdb" || fn.Parent() != nil {
 		return nil
